@@ -687,6 +687,34 @@ def corr_kv(ctx, drv):
                 if not b:
                     b = [']']
             bodies.append(''.join(b))
+    # deterministic sweep (cheap, every run): each edge text in every position the writer treats specially
+    from srctools.fgd import KVDef, UnknownHelper, EntityDef, EntityTypes
+    for t in G.edge_texts():
+        for cs in (True, False):
+            if not cs and ('\\' in t or '\r' in t):
+                continue
+            kvs = [KVDef('k', ValueTypes.STRING, t, t, t), KVDef('i', ValueTypes.INT, 'd', t, ''),
+                   KVDef('c', ValueTypes.CHOICES, 'd', t, '', [(t, t, frozenset()), ('x' + t, 'n', frozenset())]),
+                   KVDef('b', ValueTypes.BOOL, 'd', t, t)]
+            if '\n' not in t:
+                kvs.append(KVDef('f', ValueTypes.SPAWNFLAGS, 'f', '', '', [(4, t, True, frozenset())]))
+            body = ''
+            for kv in kvs:
+                f = io.StringIO()
+                kv.export(f, frozenset(), True, cs)
+                text = f.getvalue()
+                reqs.append({'op': 'kvexport', 'ext': cs, 'label': True, 'tags': [], 'kv': kv_json(kv)})
+                meta.append(('kvexport', text, 'edge:' + kv.type.name))
+                body += text
+                ctx.case({'edge-kv': codes(t), 'type': kv.type.name, 'cs': cs}, nontrivial=True, sample_every=997)
+                ctx.count('kvline:edge-text')
+            f = io.StringIO()
+            iod = IODef('Inp', ValueTypes.VOID, t)
+            iod.export(f, 'input', frozenset(), cs)
+            reqs.append({'op': 'ioexport', 'ext': cs, 'label': True, 'kw': codes('input'), 'tags': [], 'io': io_json(iod)})
+            meta.append(('ioexport', f.getvalue(), 'input'))
+            body += '\n\t// Inputs\n' + f.getvalue() + '\t]\n'
+            bodies.append(body)
     for body in bodies:
         fold, up = case_tables(body)
         reqs.append({'op': 'bodyparse', 's': codes(body), 'fold': fold, 'up': up})
@@ -818,6 +846,27 @@ def corr_ent(ctx, drv):
                 else:
                     b.insert(k, b[k])
             texts.append((''.join(b), True))
+    # deterministic sweep: edge texts as helper arguments, tags, class description (cheap, every run)
+    from srctools.fgd import FGD as _FGD, EntityDef as _ED, EntityTypes as _ET, KVDef as _KV, ValueTypes as _VT, UnknownHelper as _UH, IODef as _IO
+    for t in G.edge_texts():
+        fgd = _FGD()
+        e = _ED(_ET.POINT, 'edge_ent')
+        e.helpers = [_UH('uh', [t]), _UH('uh2', ['a', t, 'b'])]
+        e.desc = t
+        tag = frozenset({'T' + t}) if t and not (set(t) & set('[],')) else frozenset({'TAG'})
+        e.keyvalues['k'] = {tag: _KV('k', _VT.STRING, 'd', '', '')}
+        e.kv_order = ['k']
+        e.inputs['i'] = {tag: _IO('i', _VT.VOID, '')}
+        fgd.entities['edge_ent'] = e
+        try:
+            text = G.export_guarded(fgd)
+        except Exception:
+            continue
+        fold, up = case_tables(text)
+        reqs.append({'op': 'entexport', 'ext': True, 'label': True, 'fold': fold, 'up': up, 'ents': [ent_rec_json(e)]})
+        meta.append(('entexport', text, 1))
+        texts.append((text, True))
+        ctx.count('entfile:edge-text')
     # the shipped entities, one by one (quick: a sample; thorough: all)
     full = _STATE.get('full')
     if full is None:
@@ -1139,6 +1188,26 @@ def _corr_lazy_all(ctx, drv):
     corr_lazy(ctx, drv, real)
 
 
+def edge_roundtrip(t, cs):
+    """Text round trip of one entity carrying the text `t` in every string position of keyvalues / IO / description."""
+    from srctools.fgd import FGD, EntityDef, EntityTypes, KVDef, IODef, ValueTypes
+    fgd = FGD()
+    e = EntityDef(EntityTypes.POINT, 'edge_ent')
+    e.desc = t
+    # choice names are always written without custom syntax: no backslash / CR there (documented limitation)
+    cn = t if not ('\\' in t or '\r' in t) else 'n'
+    kvs = [KVDef('k', ValueTypes.STRING, t, t, t), KVDef('i', ValueTypes.INT, 'd', t, ''),
+           KVDef('c', ValueTypes.CHOICES, 'd', t, t, [(t, cn, frozenset()), ('x' + t, 'n', frozenset()), (t + 'x', cn, frozenset())]),
+           KVDef('m', ValueTypes.STR_MODEL, '', t, '')]
+    for kv in kvs:
+        e.keyvalues[kv.name] = {frozenset(): kv}
+    e.kv_order = [kv.name for kv in kvs]
+    e.inputs['inp'] = {frozenset(): IODef('Inp', ValueTypes.VOID, t)}
+    e.outputs['out'] = {frozenset(): IODef('Out', ValueTypes.INT, t)}
+    fgd.entities['edge_ent'] = e
+    return G.text_roundtrip(fgd, cs, True, field_equality=True)[0]
+
+
 def search_generated(ctx):
     n = ctx.budget(120, 1500)
     for i in range(n):
@@ -1158,6 +1227,18 @@ def search_generated(ctx):
                 for key, what in probs:
                     ctx.witness('text-' + key, f'generated FGD (seed {seed}, custom_syntax={cs}, label_spawnflags={ls}): {what}',
                                 {'kind': 'gen-text', 'seed': seed, 'opts': o, 'cs': cs, 'ls': ls})
+    # deterministic sweep: every edge text (numeric-looking / identifier / empty with one blank or control character
+    # before, after or inside) in every string position of a keyvalue / IO definition / entity description
+    for t in G.edge_texts():
+        for cs in (True, False):
+            if not cs and ('\\' in t or '\r' in t):
+                continue
+            probs = edge_roundtrip(t, cs)
+            ctx.case({'edge': codes(t), 'cs': cs}, nontrivial=True, sample_every=97)
+            ctx.count('text:edge-text')
+            for key, what in probs:
+                ctx.witness('text-' + key, f'edge text {t!r} (custom_syntax={cs}): {what}', {'kind': 'edge-text', 't': codes(t), 'cs': cs})
+                break
     # binary round trip of generated engine-form FGDs
     for i in range(ctx.budget(6, 40)):
         seed = ctx.rng.getrandbits(48)
@@ -1668,6 +1749,11 @@ def replay(ctx, payload):
             ctx.witness('history', p_, inp)
     elif kind == 'helper':
         search_helpers(ctx)
+    elif kind == 'edge-text':
+        probs = edge_roundtrip(uncodes(inp['t']), inp['cs'])
+        print(probs)
+        for k, w in probs:
+            ctx.witness('text-' + k, w, inp)
     elif kind == 'part':
         ctx.tier = 'quick'
         guard(ctx, 'generated FGDs', search_generated, ctx)
